@@ -156,16 +156,17 @@ def run(args, env, cwd=None, shell=False, kill_tree=True, timeout=-1,
 
     thread = _SubprocessThread(executable_name, args, env, shell, cwd, verbose, stdout,
                                stderr, stdin_input)
-    thread.start()
-
     was_interrupted = False
 
     try:
+        # an interrupt may arrive as soon as the process exists, also while start() still waits
+        thread.start()
         _join_with_keep_alive(keep_alive_output, thread, timeout)
     except KeyboardInterrupt:
         was_interrupted = True
 
-    if (timeout != -1 or was_interrupted) and not thread.has_finished():
+    if (timeout != -1 or was_interrupted) and thread.ident is not None \
+            and not thread.has_finished():
         assert thread.get_pid() is not None
         result = kill_process(thread.get_pid(), kill_tree, thread,
                               deliver_kill_signal if uses_sudo else None)
